@@ -106,6 +106,10 @@ def mkjob(inst: Instance, none_tasks: frozenset[str] = frozenset()) -> JobInstan
                            sink_input_kw=b if isinstance(b, str) else None,
                            sink_input_ps=b if isinstance(b, int) else None)
              for (s, o, d), b in sorted(bind.items())]
+    # the same upstream dataset bound to a second (keyword) parameter of the same task
+    for n, (s, o, d) in enumerate(inst.dup_edges):
+        edges.append(Task2TaskEdge(source=DatasetId(s, o), sink_task=d, sink_input_kw=f"dup{n}", sink_input_ps=None))
+        tasks[d].static_input_kw[f"dup{n}"] = f"default-dup{n}"
     return JobInstance(tasks=tasks, edges=edges, ext_outputs=[DatasetId(t, o) for t, o in inst.ext])
 
 
@@ -135,6 +139,9 @@ def sequential(inst: Instance, none_tasks: frozenset[str] = frozenset()) -> dict
                     args[b] = vals[(e[0], e[1])]
                 else:
                     kwargs[b] = vals[(e[0], e[1])]
+            for n, (s_, o_, d_) in enumerate(inst.dup_edges):
+                if d_ == t:
+                    kwargs[f"dup{n}"] = vals[(s_, o_)]
             outs = sorted(inst.outs[t])
             r = _body_of(t, none_tasks)(*args, _t=t, _n=len(outs), **kwargs)
             res = [r] if len(outs) == 1 else list(r)
@@ -286,6 +293,7 @@ class SimBridge:
         self.failures: list[str] = []
         self.max_exec_steps, self.max_batch = max_exec_steps, max_batch
         self.chooser = None                  # exhaustive mode: an object with choose(n) -> index (see record_all_orders)
+        self.starve: frozenset = frozenset()  # adversarial mode: step kinds taken only when nothing else can happen
 
     # ---- Bridge API used by the controller
     def get_environment(self):
@@ -406,6 +414,16 @@ class SimBridge:
                 self.idx += 1
             rec.log("store", d=D(ds), src=src, tgt=tgt)
 
+    def pick(self, en, pending_events: bool):
+        """random enabled step; in adversarial mode the starved kinds run only when nothing else is enabled and no event waits"""
+        if self.starve:
+            rest = [e for e in en if e[0] not in self.starve]
+            if rest:
+                return self.rng.choice(rest)
+            if pending_events:
+                return None
+        return self.rng.choice(en)
+
     def some_steps(self, n: int | None = None):
         if self.chooser is not None:
             return        # exhaustive mode: executors run to quiescence inside recv_events only
@@ -414,7 +432,10 @@ class SimBridge:
             en = self.enabled()
             if not en:
                 break
-            self.step(self.rng.choice(en))
+            st = self.pick(en, any(self.events[h] for h in self.hosts) or bool(self.payloads))
+            if st is None:
+                break
+            self.step(st)
 
     def recv_events(self):
         self.calls += 1
@@ -431,7 +452,7 @@ class SimBridge:
             if not en:
                 self.rec.log("deadlock")
                 raise Deadlock("recv_events called with nothing outstanding")
-            self.step(rng.choice(en))
+            self.step(self.pick(en, False))
         out = []
         n = rng.randint(1, self.max_batch)
         while n > 0 and avail():
@@ -532,8 +553,10 @@ def record(inst: Instance, job: JobInstance, env: Environment, pre, seed: int, e
     cn, _ = comp_names(pre)
     rec = Rec(cn)
     rng = random.Random(seed)
+    starve = simkw.pop("starve", frozenset())
     b = SimBridge(env, job, inst, rng, rec, **simkw)
     b.chooser = chooser
+    b.starve = frozenset(starve)
     o_act, o_plan, o_flush, o_notify = impl.act, impl.plan, impl.flush_queues, impl.notify
     o_ba, o_mig = ASSIGN.build_assignment, API.migrate_to_component
     round_state = {"migrated": False, "flushes_idle": 0}
